@@ -141,6 +141,17 @@ def matches(finding, viol, prop):
     m = finding.get("match", {})
     if finding.get("property") != prop:
         return False
+    if "kinds" in m and viol["kind"] not in m["kinds"]:
+        return False
+    if "cfg_prefix" in m and not viol["cfg"].startswith(m["cfg_prefix"]):
+        return False
+    if m.get("harness") and viol.get("harness") != m["harness"]:
+        return False
+    return True
+
+
+def matches_old(finding, viol, prop):
+    m = finding.get("match", {})
     if "kind" in m and not re.fullmatch(m["kind"], viol["kind"]):
         return False
     if "cfg" in m and not re.fullmatch(m["cfg"], viol["cfg"]):
@@ -279,6 +290,10 @@ def main():
                 cmd += ["--step-cap", str(j["step_cap"])]
             for k, v in j.get("params", {}).items():
                 cmd += ["--param", "%s=%d" % (k, v)]
+            for f in known.get("open", []):
+                if f.get("property") == prop and f.get("match", {}).get("harness", "") in ("", j["harness"]):
+                    for kind in f["match"].get("kinds", []):
+                        cmd += ["--known", "%s:%s" % (kind, f["match"].get("cfg_prefix", ""))]
             tasks.append((ji, w, cmd, out))
 
     import queue
@@ -308,14 +323,14 @@ def main():
 
     # ---- merge
     ev = {"evaluations": 0, "passes": 0, "nontrivial": 0, "total_steps": 0, "total_switches": 0, "cases_with_stale_read": 0}
-    inconcl, labels, strategies, per_cfg = {}, {}, {}, {}
+    inconcl, labels, strategies, per_cfg, known_hits = {}, {}, {}, {}, {}
     samples = []
     fps = set()
     time_limited = False
     for d in results:
         for k in ev:
             ev[k] += d.get(k, 0)
-        for name, m in (("inconclusive", inconcl), ("labels", labels), ("strategies", strategies)):
+        for name, m in (("inconclusive", inconcl), ("labels", labels), ("strategies", strategies), ("known_finding_hits", known_hits)):
             for k, v in d.get(name, {}).items():
                 m[k] = m.get(k, 0) + v
         for k, v in d.get("per_cfg", {}).items():
@@ -339,6 +354,7 @@ def main():
     # ---- classify violations against the known-findings file
     new_viol = []
     excluded = 0
+    seen_again = {}
     for v in violations:
         hit = None
         for f in known.get("open", []):
@@ -347,9 +363,12 @@ def main():
                 break
         if hit:
             excluded += 1
-            known_lines.append("KNOWN-FINDING: property=%s %s: %s (seen again: kind=%s cfg=%s replay=%s)" % (prop, hit.get("id"), hit.get("what"), v["kind"], v["cfg"], v["replay"]))
+            seen_again.setdefault(hit.get("id"), []).append(v)
         else:
             new_viol.append(v)
+    for fid, vs in seen_again.items():
+        known_lines.append("KNOWN-FINDING: property=%s %s seen again in this run: %s (e.g. cfg=%s replay=%s)" % (
+            prop, fid, ", ".join(sorted(set(x["kind"] for x in vs))), vs[0]["cfg"], vs[0]["replay"]))
     wall = time.time() - t0
 
     nontriv_floor = spec.get("nontrivial_floor", 0.0)
@@ -385,7 +404,8 @@ def main():
             "cases_with_stale_read": ev["cases_with_stale_read"],
             "jobs": [{k: v for k, v in j.items() if k != "workers"} for j in jobs],
             "regression_replays": regress,
-            "excluded_by_known_findings": excluded,
+            "excluded_by_known_findings": sum(known_hits.values()),
+            "known_finding_hits": known_hits,
             "known_findings_reported": len(known_lines),
             "health_warnings": health,
             "build_s": round(t_build, 1),
